@@ -464,6 +464,20 @@ def _build(prop):
 def run(prop, tier, seed):
     tier = "thorough" if tier == "thorough" else "quick"
     seed = int(seed)
+    if prop == "C20":
+        # C20 (arenas are independent): the same generated stream, but only what involves a
+        # second arena or a handle crossing sets / a destroyed arena counts for this property
+        res = run("C14", tier, seed)
+        keep = []
+        for pr in res.get("problems", []):
+            n_arenas = len({l.split()[1] for l in pr.get("lines", []) if l.split()[:1] == ["arena"] and len(l.split()) > 1})
+            if n_arenas >= 2 or "foreign" in pr.get("name", "") or not pr.get("failing_input", False):
+                pr = dict(pr, text=pr.get("text", "").replace("C14", "C20", 1))
+                keep.append(pr)
+        res["problems"] = keep
+        if "summary" in res and "dynroots_C14" in res["summary"]:
+            res["summary"] = {"dynroots_C20": res["summary"]["dynroots_C14"]}
+        return res
     if prop != "C14":
         return dict(problems=[dict(name="dynroots-bad-prop", text=f"eng_dynroots does not handle {prop}", failing_input=False, header=[], lines=[])])
     problems, hexe, mexe, timings = _build(prop)
